@@ -19,7 +19,7 @@ from lv.model import mk_rule
 from lv.props import common
 
 ID = 'C18'
-BUDGET = {'quick': 640, 'thorough': 8000}          # generated programs
+BUDGET = {'quick': 1600, 'thorough': 8000}          # generated programs
 RULE = ('programs from the typed generator plus 1-2 ordered predicates (facts / single '
         'injectible-shaped rule / several rules / disjunction / distinct+aggregation / '
         'functional / constant rows / reading another ordered predicate / 25 %: a wide 5-10 '
